@@ -357,11 +357,14 @@ func hashVariants(fn string) []endcore.Variant {
 	return out
 }
 
-// counterReader is an entropy source that returns the blocks base+1, base+2, ... (32 bytes, big endian), every eleventh one
-// preceded by a block the rejection sampler must skip (all zero, or a value >= n that reduces to zero).
+// counterReader is an entropy source that delivers the blocks 7f..(base+1), 7f..(base+2), ... (32 bytes, big endian), every
+// eleventh one preceded by a block the rejection sampler must skip (all zero, or n itself). It keeps what it delivered during
+// the current call: how much of the stream a call consumes is its own business (read-ahead is allowed), the result must be the
+// first acceptable 32-byte block of what it was given.
 type counterReader struct {
 	next  uint64
 	queue []byte
+	given []byte // bytes delivered since the current call started
 }
 
 func (r *counterReader) Read(p []byte) (int, error) {
@@ -380,6 +383,7 @@ func (r *counterReader) Read(p []byte) (int, error) {
 		r.queue = append(r.queue, blk[:]...)
 	}
 	n := copy(p, r.queue)
+	r.given = append(r.given, r.queue[:n]...)
 	r.queue = r.queue[n:]
 	return n, nil
 }
@@ -390,17 +394,20 @@ func runRandom(c endcore.Case) error {
 	rand.Reader = src
 	defer func() { rand.Reader = saved }()
 	s := secp256k1.NewScalar()
-	var want [32]byte
-	want[0] = 0x7f
 	for i := 0; i < c.N; i++ {
+		src.given = src.given[:0]
 		s.Random()
-		binary.BigEndian.PutUint64(want[24:], uint64(c.Offset)*1000+uint64(i)+1)
-		if got := s.Encode(); !bytes.Equal(got, want[:]) {
-			return gen.Fail("endurance/Scalar.Random", "call number %d of Random in this process returned %x, the first acceptable block of the stream was %x", i+1, got, want)
+		var want []byte
+		for off := 0; off+32 <= len(src.given); off += 32 {
+			blk := src.given[off : off+32]
+			if blk[0] == 0x7f { // (the acceptable blocks of this stream are < n and non-zero by construction)
+				want = blk
+				break
+			}
 		}
-	}
-	if len(src.queue) != 0 {
-		return gen.Fail("endurance/Scalar.Random", "after %d calls %d bytes of the stream were read ahead", c.N, len(src.queue))
+		if got := s.Encode(); want == nil || !bytes.Equal(got, want) {
+			return gen.Fail("endurance/Scalar.Random", "call number %d of Random in this process returned %x; it was given %d bytes, whose first acceptable block is %x", i+1, got, len(src.given), want)
+		}
 	}
 	return nil
 }
